@@ -1,4 +1,5 @@
 import SeqIoModel.Proofs.FastaStreamGrowth
+import SeqIoModel.Proofs.FastqGrowth
 /-!
 # C18 – steady-state reading allocates nothing and keeps the buffer size
 
@@ -25,5 +26,13 @@ theorem steady_state_keeps_buffer (inp : List UInt8) (cap : Nat) (hcap : 3 ≤ c
     (runState k (mkReader inp cap pol script chunk)).log = [] ∧
       (runState k (mkReader inp cap pol script chunk)).br.cap = cap :=
   fitting_never_grows inp cap hcap pol hpol script hs chunk k hfit
+
+/-- FASTQ: groups that fit the buffer: no request, same capacity after any number of reads -/
+theorem fastq_steady_state_keeps_buffer (inp : List UInt8) (cap : Nat) (hcap : 3 ≤ cap) (pol : Pol)
+    (hwf : Fastq.PolWf1 pol) (script : List ReadEv) (hs : NoFail script) (chunk : Nat)
+    (hfit : Fastq.AllFit inp cap) (k : Nat) :
+    (Fastq.nextN k (Fastq.mkReader inp cap pol script chunk)).log = [] ∧
+      (Fastq.nextN k (Fastq.mkReader inp cap pol script chunk)).br.cap = cap :=
+  Fastq.fitting_never_grows inp cap hcap pol hwf script hs chunk hfit k
 
 end SeqIo.Thm.C18
